@@ -224,7 +224,13 @@ impl Shell {
                     if let Some(i_pid) = x.pids.iter().position(|p| *p == pid) {
                         x.pids.remove(i_pid);
                     }
+                    x.pids_stopped.remove(&pid);
                     empty_pids = x.pids.is_empty();
+                    if !empty_pids && x.all_members_stopped() {
+                        // the remaining members are all stopped
+                        x.status = "Stopped".to_string();
+                        x.is_bg = true;
+                    }
                     break;
                 }
             }
